@@ -27,6 +27,19 @@
 (*   CountAtEnqueue = FALSE: workers count after dequeue; grow when        *)
 (*                           counter + 1 >= workers      (BUG_LaggingBusy) *)
 (*   LeLimit = TRUE        : growth guard is workers <= Max   (BUG_LeLimit)*)
+(*                                                                         *)
+(* Faults: a connection handler may end by panicking instead of returning  *)
+(* (EnvCrash: the environment decides which jobs do, at most MaxCrash).    *)
+(*   PanicMode = "caught"      : the worker outlives the panic: for the    *)
+(*                               pool it is just another way a job ends    *)
+(*                               (un-count, back to recv) (intended design)*)
+(*   PanicMode = "dies"        : the worker thread is gone, its job stays  *)
+(*                               counted, the pool still counts the thread *)
+(*                               (BUG_PanicKillsWorker)                    *)
+(*   PanicMode = "dies_uncount": the thread is gone but the job is         *)
+(*                               un-counted on the way out: the pool takes *)
+(*                               the dead thread for an idle one           *)
+(*                               (BUG_PanicUncountsDeadWorker)             *)
 (***************************************************************************)
 EXTENDS Integers, Sequences, FiniteSets, TLC
 
@@ -34,7 +47,9 @@ CONSTANTS Initial,          \* initial worker threads (>= 1)
           Max,              \* configured maximum
           NJobs,            \* connections that will be accepted
           MaxWorkers,       \* size of the worker id space (>= Max + 1 so that BUG_LeLimit is expressible)
-          CountAtEnqueue, LeLimit
+          CountAtEnqueue, LeLimit,
+          MaxCrash,         \* how many jobs may end by panicking
+          PanicMode
 
 Jobs == 1..NJobs
 Wids == 1..MaxWorkers
@@ -48,10 +63,11 @@ VARIABLES
   apc,       \* acceptor: "idle" | "counted" | "sent" | "dropping" | "dropped"
   nextJob,   \* next connection to accept
   mayFinish, \* jobs the environment has allowed to end
+  crash,     \* jobs (a subset of mayFinish) whose handler ends by panicking
   served,    \* jobs whose handler has started
   doneJobs   \* jobs whose handler has returned
 
-pvars == <<workers, ctr, queue, wst, wjob, apc, nextJob, mayFinish, served, doneJobs>>
+pvars == <<workers, ctr, queue, wst, wjob, apc, nextJob, mayFinish, crash, served, doneJobs>>
 
 PInit ==
   /\ workers = Initial
@@ -62,6 +78,7 @@ PInit ==
   /\ apc = "idle"
   /\ nextJob = 1
   /\ mayFinish = {}
+  /\ crash = {}
   /\ served = {}
   /\ doneJobs = {}
 
@@ -70,13 +87,13 @@ AccCount ==
   /\ apc = "idle" /\ nextJob <= NJobs
   /\ IF CountAtEnqueue THEN ctr' = ctr + 1 ELSE UNCHANGED ctr
   /\ apc' = "counted"
-  /\ UNCHANGED <<workers, queue, wst, wjob, nextJob, mayFinish, served, doneJobs>>
+  /\ UNCHANGED <<workers, queue, wst, wjob, nextJob, mayFinish, crash, served, doneJobs>>
 
 AccSend ==
   /\ apc = "counted"
   /\ queue' = Append(queue, nextJob)
   /\ apc' = "sent"
-  /\ UNCHANGED <<workers, ctr, wst, wjob, nextJob, mayFinish, served, doneJobs>>
+  /\ UNCHANGED <<workers, ctr, wst, wjob, nextJob, mayFinish, crash, served, doneJobs>>
 
 WantGrow ==
   /\ IF CountAtEnqueue THEN ctr > workers ELSE ctr + 1 >= workers
@@ -89,7 +106,7 @@ AccDecide ==
           /\ wst' = [wst EXCEPT ![workers + 1] = "recv"]
      ELSE UNCHANGED <<workers, wst>>
   /\ apc' = "idle" /\ nextJob' = nextJob + 1
-  /\ UNCHANGED <<ctr, queue, wjob, mayFinish, served, doneJobs>>
+  /\ UNCHANGED <<ctr, queue, wjob, mayFinish, crash, served, doneJobs>>
 
 (* ---------------- workers ---------------- *)
 WRecv(w) ==
@@ -99,44 +116,58 @@ WRecv(w) ==
      THEN wst' = [wst EXCEPT ![w] = "dead"] /\ UNCHANGED wjob
      ELSE /\ wjob' = [wjob EXCEPT ![w] = Head(queue)]
           /\ wst' = [wst EXCEPT ![w] = IF CountAtEnqueue THEN "ready" ELSE "got"]
-  /\ UNCHANGED <<workers, ctr, apc, nextJob, mayFinish, served, doneJobs>>
+  /\ UNCHANGED <<workers, ctr, apc, nextJob, mayFinish, crash, served, doneJobs>>
 
 WCount(w) ==
   /\ wst[w] = "got"
   /\ ctr' = ctr + 1
   /\ wst' = [wst EXCEPT ![w] = "ready"]
-  /\ UNCHANGED <<workers, queue, wjob, apc, nextJob, mayFinish, served, doneJobs>>
+  /\ UNCHANGED <<workers, queue, wjob, apc, nextJob, mayFinish, crash, served, doneJobs>>
 
 WStart(w) ==
   /\ wst[w] = "ready"
   /\ wst' = [wst EXCEPT ![w] = "running"]
   /\ served' = served \cup {wjob[w]}
-  /\ UNCHANGED <<workers, ctr, queue, wjob, apc, nextJob, mayFinish, doneJobs>>
+  /\ UNCHANGED <<workers, ctr, queue, wjob, apc, nextJob, mayFinish, crash, doneJobs>>
 
 EnvRelease(j) ==
   /\ j \in Jobs \ mayFinish
   /\ mayFinish' = mayFinish \cup {j}
+  /\ UNCHANGED <<workers, ctr, queue, wst, wjob, apc, nextJob, crash, served, doneJobs>>
+
+\* the handler of connection j will end by panicking (a fault of the service's own code, decided by the environment)
+EnvCrash(j) ==
+  /\ j \in Jobs \ mayFinish
+  /\ Cardinality(crash) < MaxCrash
+  /\ mayFinish' = mayFinish \cup {j}
+  /\ crash' = crash \cup {j}
   /\ UNCHANGED <<workers, ctr, queue, wst, wjob, apc, nextJob, served, doneJobs>>
 
 WFinish(w) ==
   /\ wst[w] = "running" /\ wjob[w] \in mayFinish
-  /\ wst' = [wst EXCEPT ![w] = "finished"]
   /\ doneJobs' = doneJobs \cup {wjob[w]}
-  /\ UNCHANGED <<workers, ctr, queue, wjob, apc, nextJob, mayFinish, served>>
+  /\ IF wjob[w] \in crash /\ PanicMode # "caught"
+     THEN \* the thread unwinds and is gone; `workers` (the pool's Vec) still counts it
+          /\ wst' = [wst EXCEPT ![w] = "dead"]
+          /\ wjob' = [wjob EXCEPT ![w] = 0]
+          /\ ctr' = IF PanicMode = "dies_uncount" THEN ctr - 1 ELSE ctr
+     ELSE /\ wst' = [wst EXCEPT ![w] = "finished"]
+          /\ UNCHANGED <<ctr, wjob>>
+  /\ UNCHANGED <<workers, queue, apc, nextJob, mayFinish, crash, served>>
 
 WUncount(w) ==
   /\ wst[w] = "finished"
   /\ ctr' = ctr - 1
   /\ wst' = [wst EXCEPT ![w] = "recv"]
   /\ wjob' = [wjob EXCEPT ![w] = 0]
-  /\ UNCHANGED <<workers, queue, apc, nextJob, mayFinish, served, doneJobs>>
+  /\ UNCHANGED <<workers, queue, apc, nextJob, mayFinish, crash, served, doneJobs>>
 
 (* ---------------- drop: Terminate behind every queued job, then join ---------------- *)
 DropSendBody ==
   /\ apc = "idle"
   /\ queue' = queue \o [i \in 1..workers |-> 0]
   /\ apc' = "dropping"
-  /\ UNCHANGED <<workers, ctr, wst, wjob, nextJob, mayFinish, served, doneJobs>>
+  /\ UNCHANGED <<workers, ctr, wst, wjob, nextJob, mayFinish, crash, served, doneJobs>>
 
 DropSend == nextJob > NJobs /\ DropSendBody
 
@@ -144,12 +175,12 @@ DropJoined ==
   /\ apc = "dropping"
   /\ \A w \in 1..workers : wst[w] = "dead"
   /\ apc' = "dropped"
-  /\ UNCHANGED <<workers, ctr, queue, wst, wjob, nextJob, mayFinish, served, doneJobs>>
+  /\ UNCHANGED <<workers, ctr, queue, wst, wjob, nextJob, mayFinish, crash, served, doneJobs>>
 
 PNextNoDrop ==
   \/ AccCount \/ AccSend \/ AccDecide
   \/ \E w \in Wids : WRecv(w) \/ WCount(w) \/ WStart(w) \/ WFinish(w) \/ WUncount(w)
-  \/ \E j \in Jobs : EnvRelease(j)
+  \/ \E j \in Jobs : EnvRelease(j) \/ EnvCrash(j)
 
 PNext == PNextNoDrop \/ DropSend \/ DropJoined
 
